@@ -18,6 +18,29 @@ import (
 	"github.com/lugu/qiloop/type/value"
 )
 
+// inDataEOF selects how the input is served to the decoders: false = a plain bytes.Reader (end of
+// input is reported by a separate, empty Read); true = the last bytes are returned TOGETHER with io.EOF,
+// which io.Reader allows (testing/iotest.DataErrReader) and some transports do.
+var inDataEOF bool
+
+type inReader struct {
+	r       *bytes.Reader
+	dataEOF bool
+}
+
+func newIn(in []byte) *inReader { return &inReader{r: bytes.NewReader(in), dataEOF: inDataEOF} }
+
+func (x *inReader) Read(p []byte) (int, error) {
+	n, err := x.r.Read(p)
+	if x.dataEOF && err == nil && n > 0 && x.r.Len() == 0 {
+		return n, io.EOF
+	}
+	return n, err
+}
+
+// Len is the number of bytes not read yet.
+func (x *inReader) Len() int { return x.r.Len() }
+
 // decodeFn decodes one datum from the input and reports the decoded thing,
 // the number of bytes left unread and the decoder's error.
 type decodeFn func(in []byte) (res interface{}, unread int, err error)
@@ -28,7 +51,7 @@ type namedDecoder struct {
 }
 
 func decValue(in []byte) (interface{}, int, error) {
-	r := bytes.NewReader(in)
+	r := newIn(in)
 	v, err := value.NewValue(r)
 	return v, r.Len(), err
 }
@@ -40,7 +63,7 @@ func decSigReader(sig string) (decodeFn, error) {
 	}
 	rd := t.Reader()
 	return func(in []byte) (interface{}, int, error) {
-		r := bytes.NewReader(in)
+		r := newIn(in)
 		b, err := rd.Read(r)
 		return b, r.Len(), err
 	}, nil
@@ -48,7 +71,7 @@ func decSigReader(sig string) (decodeFn, error) {
 
 func decReflect(gt reflect.Type) decodeFn {
 	return func(in []byte) (interface{}, int, error) {
-		r := bytes.NewReader(in)
+		r := newIn(in)
 		p := reflect.New(gt)
 		err := encoding.NewDecoder(encoding.DefaultCap(), r).Decode(p.Interface())
 		return p.Elem(), r.Len(), err
@@ -57,7 +80,7 @@ func decReflect(gt reflect.Type) decodeFn {
 
 func decBasic(kind string) decodeFn {
 	return func(in []byte) (interface{}, int, error) {
-		r := bytes.NewReader(in)
+		r := newIn(in)
 		var v interface{}
 		var err error
 		switch kind {
@@ -131,31 +154,31 @@ func isBasicKind(k string) bool {
 }
 
 func decMetaObject(in []byte) (interface{}, int, error) {
-	r := bytes.NewReader(in)
+	r := newIn(in)
 	v, err := object.ReadMetaObject(r)
 	return v, r.Len(), err
 }
 
 func decObjRef(in []byte) (interface{}, int, error) {
-	r := bytes.NewReader(in)
+	r := newIn(in)
 	v, err := object.ReadObjectReference(r)
 	return v, r.Len(), err
 }
 
 func decServiceInfo(in []byte) (interface{}, int, error) {
-	r := bytes.NewReader(in)
+	r := newIn(in)
 	v, err := directory.ReadServiceInfo(r)
 	return v, r.Len(), err
 }
 
 func decCapMap(in []byte) (interface{}, int, error) {
-	r := bytes.NewReader(in)
+	r := newIn(in)
 	v, err := bus.ReadCapabilityMap(r)
 	return v, r.Len(), err
 }
 
 func decMessage(in []byte) (interface{}, int, error) {
-	r := bytes.NewReader(in)
+	r := newIn(in)
 	var m net.Message
 	err := m.Read(r)
 	return m, r.Len(), err
